@@ -29,6 +29,12 @@ def load_variants():
 
 
 def apply_variant(v, root):
+    if v.get("patch"):
+        # a stored diff (behaviour-preserving refactorings written by independent sub-agents)
+        p = subprocess.run(["patch", "-p1", "-s", "-i", os.path.join(VERIF, v["patch"])], cwd=root, stdout=subprocess.PIPE, stderr=subprocess.STDOUT, text=True)
+        if p.returncode != 0:
+            return "patch does not apply: %s" % p.stdout[-200:]
+        return None
     for edit in v["edits"]:
         path = os.path.join(root, edit["file"])
         with open(path) as f:
